@@ -3,6 +3,7 @@
 from __future__ import annotations
 
 import ast
+import re
 
 from ..model import AnalysisError, norm, walk_live, parent, ancestors, first_line
 from ..report import RuleResult
@@ -33,10 +34,29 @@ def rule_ns_tocfg(P):
     renamed = any(isinstance(n, ast.Assign) and any(W.is_name(t, "self") for t in n.targets) and isinstance(n.value, ast.Call)
                   and W.call_name(n.value) in ("rename", "renumber") for n in walk_live(f.node))
     raises = any(isinstance(n, ast.Raise) for n in walk_live(f.node))
+    # the rename guard rebinds `self`: state-bearing values read from the machine *before* it (I, F, arcs, states, start, stop)
+    # still name the old states and must not feed rules emitted after it
+    rebinds = [n for n in walk_live(f.node) if isinstance(n, ast.Assign) and any(W.is_name(t, "self") for t in n.targets)]
+    STATEFUL = ("I", "F", "arcs", "states", "start", "stop", "delta", "Delta", "G")
+    for rb in rebinds:
+        for n in walk_live(f.node):
+            if isinstance(n, ast.Assign) and n is not rb and W.pos(n) < W.pos(rb) and not any(W.is_name(t, "self") for t in n.targets):
+                reads = [x for x in ast.walk(n.value) if isinstance(x, ast.Attribute) and W.is_name(x.value, "self") and x.attr in STATEFUL]
+                if not reads:
+                    continue
+                tnames = {x.id for t in n.targets for x in ast.walk(t) if isinstance(x, ast.Name)}
+                late = [x for x in walk_live(f.node) if isinstance(x, ast.Name) and x.id in tnames and isinstance(x.ctx, ast.Load) and W.pos(x) > W.end_pos(rb)]
+                if late:
+                    r.add(f, n, False, f"`{first_line(n)}` reads {', '.join(sorted({'self.' + x.attr for x in reads}))} before `{first_line(rb)}` "
+                          f"replaces the machine by its renamed copy, and `{late[0].id}` is used after it (line {late[0].lineno}): those states "
+                          f"still carry the old names while the arc rules use the new ones, so the start/final rules no longer connect")
+    if rebinds:
+        r.add(f, rebinds[0], True, slots=dict(rebinding=first_line(rebinds[0])), nontrivial=False)
     # wrapped state symbols at every add site
     sites = [c for c in _adds(f) if len(c.args) >= 2]
     if len(sites) < 8:
-        raise AnalysisError("wfsa/base.py::WFSA.to_cfg: expected 8 rule-emitting sites")
+        r.undecided(f, f.node, f"expected 8 rule-emitting sites (4 per recursion scheme), found {len(sites)}", construct="to_cfg: rule-emitting sites")
+        return r
     wrapped = all(all(isinstance(a, (ast.Tuple, ast.Call)) or (W.is_name(a, "S")) or _is_label(f, a) for a in c.args[1:]) for c in sites)
     ok = wrapped or (guarded and (renamed or raises))
     r.add(f, f.node, ok, "" if ok else "state names are used as nonterminals next to the alphabet's terminals with no wrapping and no "
@@ -351,7 +371,7 @@ def rule_enc_utf8(P):
     r = RuleResult("ENC-UTF8", "in CFG.to_bytes and WFSA.to_bytes every byte that replaces a string symbol comes from that symbol's "
                    "`.encode('utf-8')` (the whole sequence, in order): no other codec, no ord()/chr() shortcut (ord(c) is the UTF-8 "
                    "encoding only below 0x80)", "byte symbols are exactly the UTF-8 encoding")
-    for q, sinks in (("cfg.py::CFG.to_bytes", ("extend", "append", "add")), ("wfsa/base.py::WFSA.to_bytes", ("add_arc",))):
+    for q, sinks in (("cfg.py::CFG.to_bytes", ("extend", "append", "add", "update")), ("wfsa/base.py::WFSA.to_bytes", ("add_arc",))):
         f = P.func(q)
         r.looked_at(f)
         src = {}
@@ -408,14 +428,140 @@ def rule_enc_utf8(P):
                     ok = from_src(lab)
                     r.add(f, n, ok, "" if ok else f"`{first_line(n)}`: byte label `{norm(lab)}` does not come from the symbol's UTF-8 encoding")
                 elif n.func.attr in ("extend", "append") and n.args:
-                    facts = W.guard_facts(n)
-                    if not any(ft.pol and "is_terminal" in norm(ft.test) for ft in facts):
+                    if not any(re.match(r"^self\.is_terminal\(\w+\)$", t) for t in W.cfacts(f.node, n)):
                         continue
                     a = n.args[0]
                     ok = from_src(a)
                     r.add(f, n, ok, "" if ok else f"`{first_line(n)}`: `{norm(a)}` is not the symbol's UTF-8 byte sequence")
-                elif n.func.attr == "add" and len(n.args) == 1 and norm(W.receiver(n)).endswith(".V"):
+                elif n.func.attr in ("add", "update") and len(n.args) == 1 and W.cnorm(f.node, W.receiver(n), n).endswith(".V"):
                     ok = from_src(n.args[0])
                     r.add(f, n, ok, "" if ok else f"`{first_line(n)}`: vocabulary entry `{norm(n.args[0])}` is not a UTF-8 byte of the symbol")
-    r.min_instances = 8
+        if len([o for o in r.obs if o.function == f.qual.split("::", 1)[1]]) < len(src) + 1:
+            r.undecided(f, f.node, "no use of the encoded bytes recognised (would pass vacuously)", construct=f"{q}: byte sinks")
+    r.min_instances = 4
+    return r
+
+
+# ---------------------------------------------------------------- COMPLEMENT (regex `anything_else`)
+
+
+def rule_complement(P):
+    r = RuleResult("COMPLEMENT", "interegular_to_wfsa.expand_alphabet: a transition class that stands for `anything_else` expands to the "
+                   "character set minus the symbols the automaton mentions explicitly - `charset - set(fsm.alphabet)`, the alphabet's "
+                   "members taken as whole symbols; every other class expands to its own members.  Subtracting nothing double-counts "
+                   "explicit symbols; flattening the members into their characters removes 'S' because a case-folded 'SS' is mentioned",
+                   "negated classes and the dot are the complement relative to the character set")
+    q = "lark_interface.py::interegular_to_wfsa.expand_alphabet"
+    if not P.has_func(q):
+        raise AnalysisError(f"{q} not found")
+    f = P.func(q)
+    r.looked_at(f)
+    a = f.params[0]
+    rets = [n for n in walk_live(f.node) if isinstance(n, ast.Return) and n.value is not None]
+    comp = [n for n in rets if any(re.match(r"^anything_else in \w+\.alphabet\.by_transition\[" + re.escape(a) + r"\]$", t) for t in W.cfacts(f.node, n))]
+    rest = [n for n in rets if n not in comp]
+    if len(comp) != 1 or len(rest) != 1:
+        r.undecided(f, f.node, f"expected one return under `anything_else in fsm.alphabet.by_transition[{a}]` and one for the other classes "
+                    f"(found {len(comp)} and {len(rest)})", construct="expand_alphabet: case split")
+        return r
+    c = comp[0]
+    v = W.canon_ast(f.node, c.value, c)
+    if isinstance(v, ast.Name):
+        d = W.single_def(f.node, v.id)
+        v = d if d is not None else v
+    outer = f.outer
+    cs = outer.params[1] if outer is not None and len(outer.params) > 1 else "charset"
+    if W.is_name(v, cs):
+        r.add(f, c, False, f"`{first_line(c)}` returns the whole character set: explicitly mentioned symbols are not removed from the "
+              f"`anything_else` class", construct="expand_alphabet: anything_else")
+    elif isinstance(v, ast.BinOp) and isinstance(v.op, ast.Sub) and W.is_name(v.left, cs):
+        sub = v.right
+        if isinstance(sub, ast.Name):
+            d = W.single_def(f.node, sub.id)
+            sub = d if d is not None else sub
+        txt = norm(sub)
+        whole = False
+        flat = False
+        if isinstance(sub, ast.Call) and norm(sub.func) in ("set", "frozenset") and len(sub.args) == 1 and re.match(r"^\w+\.alphabet$", norm(sub.args[0])):
+            whole = True
+        elif isinstance(sub, ast.SetComp) and len(sub.generators) == 1 and re.match(r"^\w+\.alphabet$", norm(sub.generators[0].iter)) \
+                and norm(sub.elt) == norm(sub.generators[0].target) \
+                and all("anything_else" in norm(i) for i in sub.generators[0].ifs):
+            whole = True
+        elif isinstance(sub, ast.BinOp) and isinstance(sub.op, ast.Sub) and isinstance(sub.left, ast.Call) and norm(sub.left.func) in ("set", "frozenset") \
+                and len(sub.left.args) == 1 and re.match(r"^\w+\.alphabet$", norm(sub.left.args[0])) and norm(sub.right) in ("{anything_else}", "set([anything_else])"):
+            whole = True
+        elif "union(*" in txt or "chain" in txt or (isinstance(sub, (ast.SetComp, ast.GeneratorExp, ast.ListComp)) and len(sub.generators) > 1) \
+                or "''.join" in txt or '"".join' in txt:
+            flat = True
+        if flat:
+            r.add(f, c, False, f"`{txt}` flattens the alphabet's members into their characters: a multi-character member (a case-folded 'SS') removes "
+                  f"its characters from every negated class / dot", construct="expand_alphabet: anything_else")
+        elif whole:
+            r.add(f, c, True, slots=dict(expansion=norm(v)), construct="expand_alphabet: anything_else")
+        else:
+            r.undecided(f, c, f"subtrahend `{txt}` not recognised", construct="expand_alphabet: anything_else")
+    else:
+        r.undecided(f, c, f"`{first_line(c)}` is not `{cs} - <explicit symbols>`", construct="expand_alphabet: anything_else")
+    o = rest[0]
+    ok = re.match(r"^\w+\.alphabet\.by_transition\[" + re.escape(a) + r"\]$", W.cnorm(f.node, o.value, o)) is not None
+    if ok:
+        r.add(f, o, True, construct="expand_alphabet: explicit class")
+    else:
+        r.undecided(f, o, f"`{first_line(o)}` is not the class's own members", construct="expand_alphabet: explicit class")
+    r.min_instances = 2
+    return r
+
+
+# ---------------------------------------------------------------- DEADSTATES
+
+
+def rule_deadstates(P):
+    r = RuleResult("DEADSTATES", "interegular_to_wfsa drops exactly the states from which no final state is reachable: the set is defined by "
+                   "the automaton's own reachability test (`not fsm.islive(e)` for every state) or by a closure iterated to a fixed point; a "
+                   "single sweep that marks a state live when a successor is *already* marked depends on the numbering of the states and "
+                   "calls live states dead", "arcs into live states are kept, arcs into dead states dropped")
+    f = P.func("lark_interface.py::interegular_to_wfsa")
+    r.looked_at(f)
+    skip = None
+    for n in walk_live(f.node):
+        if isinstance(n, ast.Compare) and len(n.ops) == 1 and isinstance(n.ops[0], (ast.In, ast.NotIn)) and isinstance(n.comparators[0], ast.Name):
+            par = parent(n)
+            if isinstance(par, ast.If) and any(isinstance(x, ast.Continue) for x in par.body) or isinstance(par, ast.comprehension):
+                nm = n.comparators[0].id
+                if W.assignments_to(f.node, nm) and any(isinstance(a, ast.For) and norm(a.iter).endswith(".states") for a in ancestors(n)):
+                    skip = nm
+    if skip is None:
+        r.undecided(f, f.node, "the set of skipped (dead) target states was not found", construct="interegular_to_wfsa: dead states")
+        return r
+    defs = W.assignments_to(f.node, skip)
+    if len(defs) != 1:
+        r.undecided(f, f.node, f"`{skip}` is assigned {len(defs)} times", construct="interegular_to_wfsa: dead states")
+        return r
+    st, v = defs[0]
+    if isinstance(v, (ast.ListComp, ast.SetComp)) and len(v.generators) == 1 and norm(v.generators[0].iter).endswith(".states") \
+            and norm(v.elt) == norm(v.generators[0].target) and len(v.generators[0].ifs) == 1:
+        t = v.generators[0].ifs[0]
+        e = norm(v.elt)
+        ok = re.match(r"^not \w+\.islive\(" + re.escape(e) + r"\)$", norm(t)) is not None
+        if ok:
+            r.add(f, st, True, slots=dict(dead=norm(v)), construct="interegular_to_wfsa: dead states")
+        else:
+            r.undecided(f, st, f"filter `{norm(t)}` is not the automaton's reachability test", construct="interegular_to_wfsa: dead states")
+    elif isinstance(v, ast.BinOp) and isinstance(v.op, ast.Sub) and isinstance(v.right, ast.Name):
+        live = v.right.id
+        grow = [n for n in walk_live(f.node) if isinstance(n, ast.Call) and isinstance(n.func, ast.Attribute) and n.func.attr in ("add", "update")
+                and W.is_name(n.func.value, live)]
+        single = [g for g in grow if not any(isinstance(a, ast.While) for a in ancestors(g))
+                  and any(isinstance(a, ast.For) for a in ancestors(g))
+                  and any(live in {x.id for x in ast.walk(ft.test) if isinstance(x, ast.Name)} for ft in W.guard_facts(g))]
+        if single:
+            r.add(f, single[0], False, f"`{first_line(single[0])}`: `{live}` grows in one sweep, conditioned on what is already in `{live}`, and the sweep "
+                  f"is not repeated until nothing changes: a state whose only way to a final state goes through a state visited later is "
+                  f"classified dead and every arc into it is dropped", construct="interegular_to_wfsa: dead states")
+        else:
+            r.undecided(f, st, f"`{first_line(st)}`: computation of `{live}` not recognised", construct="interegular_to_wfsa: dead states")
+    else:
+        r.undecided(f, st, f"`{first_line(st)}` not recognised", construct="interegular_to_wfsa: dead states")
+    r.min_instances = 1
     return r
